@@ -21,7 +21,7 @@ ASSUMPTIONS = ['NotImplementedError escaping emulate_cycle is the documented not
 
 CTXS = [('v6-pmsa-sec', 'off'), ('v6-pmsa-sec', 'mpu'), ('v7-pmsa-r', 'off'), ('v7-vmsa-sec', 'off'),
         ('v7-vmsa-sec', 'mmu'), ('v7-vmsa-virt', 'off'), ('v5-pmsa', 'off'), ('v4-pmsa', 'off'), ('v6-pmsa', 'mpu'),
-        ('v6-vmsa', 'mmu')]
+        ('v6-vmsa', 'mmu'), ('v7-pmsa-r', 'mpu')]
 SHARD_TIMEOUT = {'quick': 900, 'thorough': 7200}
 
 
@@ -125,6 +125,11 @@ class Mon:
             r_ = cpu.registers
             desc['hostile_mmu'] = {k: getattr(getattr(r_, k), 'value', getattr(r_, k)) for k in HOSTILE_REGS if hasattr(r_, k)}
             self.bump('steps_with_hostile_mmu_setup')
+        if ctx.cfg['arch_version'] == 6 and rng.random() < 0.5:
+            # ARMv6 alignment models: legacy rotation (U=0), unaligned support (U=1), strict checking (A=1)
+            cpu.registers.sctlr.u = rng.randrange(2)
+            cpu.registers.sctlr.a = 1 if rng.random() < 0.3 else 0
+            desc['sctlr_ua'] = [cpu.registers.sctlr.u, cpu.registers.sctlr.a]
         if rng.random() < 0.04:
             # the J bit is reachable by an exception return (SPSR values are software-controlled): Jazelle (J=1,T=0) and
             # ThumbEE (J=1,T=1) states must step without a host error too, whatever they then do
@@ -459,6 +464,8 @@ def replay(data):
             reg.value = v
         else:
             setattr(cpu.registers, k_, v)
+    if rp.get('sctlr_ua'):
+        cpu.registers.sctlr.u, cpu.registers.sctlr.a = rp['sctlr_ua']
     out = dict(evaluations=1, violations=[])
     k, sig = scen.step(cpu)
     if k == 'host':
